@@ -132,6 +132,8 @@ pub fn scenarios(tier: &str) -> Vec<Scen> {
     }
     // leaf spill: the seek-back path
     let big = if tier == "thorough" { vec![1u8, 2, 3, 4] } else { vec![1u8, 2] };
+    // enough tiles that a gzip archive has several back-to-back leaf directories
+    add("arch_read", 2, 12_000);
     for c in big {
         add("dirs_write", c, 2600);
         add("arch_write", c, 4300);
